@@ -85,9 +85,72 @@ func TestSim(t *testing.T) {
 	minimize := os.Getenv("VERIF_MINIMIZE") == "1"
 	replayDir := os.Getenv("VERIF_REPLAY_DIR")
 	minimized := map[string]bool{}
+	// enumeration: VERIF_ENUM="param:countkey[:max]" runs, for every seed, a
+	// fault-free twin and then one run per fault position 1..twin.Extra[countkey]
+	type enumSpec struct {
+		param, key string
+		max        int
+	}
+	var enums []enumSpec
+	if e := os.Getenv("VERIF_ENUM"); e != "" {
+		for _, one := range strings.Split(e, ",") {
+			parts := strings.Split(one, ":")
+			es := enumSpec{param: parts[0], key: parts[1], max: 100000}
+			if len(parts) > 2 {
+				es.max, _ = strconv.Atoi(parts[2])
+			}
+			enums = append(enums, es)
+		}
+	}
+	type job struct {
+		seed   uint64
+		plan   []int
+		sched  []int
+		mode   int
+		params map[string]int
+	}
+	var queue []job
 	for i := 0; i < count; i++ {
-		seed := start + uint64(i)
-		res := RunOne(t, prop, seed, nil, nil, false, params, trace)
+		queue = append(queue, job{seed: start + uint64(i), mode: ModeGen, params: params})
+	}
+	for len(queue) > 0 {
+		j := queue[0]
+		queue = queue[1:]
+		seed := j.seed
+		params := j.params
+		res := RunOneMode(t, prop, seed, j.plan, j.sched, j.mode, params, trace)
+		if res.Extra == nil {
+			res.Extra = map[string]interface{}{}
+		}
+		res.Extra["params"] = params
+		if len(enums) > 0 && j.mode == ModeGen && res.Harness == "" && len(res.Violations) == 0 {
+			if res.Stats == nil {
+				res.Stats = map[string]int{}
+			}
+			res.Stats["enum.histories"] = 1
+			for _, es := range enums {
+				n := 0
+				if v, ok := res.Extra[es.key].(int); ok {
+					n = v
+				}
+				if n > es.max {
+					n = es.max
+				}
+				res.Stats["enum.positions."+es.param] = n
+				res.Stats["enum.positions"] += n
+				for k := 1; k <= n; k++ {
+					p2 := map[string]int{}
+					for a, b := range params {
+						p2[a] = b
+					}
+					p2[es.param] = k
+					if m := params[es.param+"2max"]; m > 0 {
+						p2[es.param+"2"] = (k * 7919) % (m + 1)
+					}
+					queue = append(queue, job{seed: seed, plan: res.Plan, sched: res.Sched, mode: ModeExtend, params: p2})
+				}
+			}
+		}
 		if minimize && replayDir != "" && res.Harness == "" {
 			for _, class := range res.Classes() {
 				if minimized[class] {
